@@ -13,13 +13,33 @@ import (
 
 	"github.com/Shopify/sarama"
 	"verif/harness/hlib"
+	"verif/harness/life"
 )
 
 const Rule = "client-close scenario = f(seed): 1-3 brokers, 1-3 topics, metadata answers delayed 0-6 ms, 1-4 goroutines calling RefreshMetadata(topic)/Partitions/Leader/WritablePartitions/GetOffset in a loop, Close after 0-12 ms, then Close again. non-trivial = at least one call was in flight when Close was called"
 
 type Fail struct{ Sig, Detail string }
 
-func run1(seed uint64) (fails []Fail, inflight bool, desc string) {
+// run1 runs one scenario; with lifecycle recording on (C12) it also returns the hook events of the client and its
+// brokers as operation lines for the Lean lifecycle acceptors.
+func run1(seed uint64) (fails []Fail, inflight bool, desc string, lifeLines []string) {
+	rec := life.Begin(fmt.Sprintf("cl:%d", seed))
+	if rec != nil {
+		sarama.VerifSinkKV = rec.Event
+	}
+	fails, inflight, desc = run1core(seed)
+	if rec != nil {
+		var panics []string
+		lifeLines, panics = rec.End()
+		sarama.VerifSinkKV = nil
+		if len(panics) > 0 {
+			fails = append(fails, Fail{"C12:client-goroutine-panic", "recovered in one of sarama's goroutines: " + strings.Join(panics, " | ")})
+		}
+	}
+	return
+}
+
+func run1core(seed uint64) (fails []Fail, inflight bool, desc string) {
 	r := hlib.NewRand(seed)
 	brokers := r.Range(1, 3)
 	topics := map[string]int32{}
@@ -151,8 +171,12 @@ func RunAll(run *hlib.Run, prop string, sigPrefixes []string, n int) {
 	if lines := run.ReplayLines(); lines != nil {
 		for _, l := range lines {
 			t := strings.Fields(l)
+			s, ok := life.ReplaySeed(t, "cl")
 			if len(t) >= 2 && t[0] == "cl" {
-				s, _ := strconv.ParseUint(t[1], 10, 64)
+				s, _ = strconv.ParseUint(t[1], 10, 64)
+				ok = true
+			}
+			if ok {
 				for k := 0; k < 30; k++ {
 					seeds = append(seeds, s)
 				}
@@ -167,8 +191,19 @@ func RunAll(run *hlib.Run, prop string, sigPrefixes []string, n int) {
 		if !run.Mine(idx) {
 			continue
 		}
-		fails, inflight, desc := run1(s)
+		fails, inflight, desc, lifeLines := run1(s)
 		run.Case("cl " + strconv.FormatUint(s, 10) + " # " + desc)
+		hung := false
+		for _, f := range fails {
+			if strings.Contains(f.Sig, "hang") {
+				hung = true
+			}
+		}
+		if !hung {
+			for _, l := range lifeLines {
+				run.Emit(l, "ok")
+			}
+		}
 		if inflight {
 			run.Count("client-close-with-call-in-flight")
 			run.Nontrivial(desc)
